@@ -89,6 +89,18 @@ Theorem C04_results_last_wins : forall log t v,
             forall j e', v < j -> nth_error log j = Some e' -> fst e' <> t.
 Proof. exact results_last_wins. Qed.
 
+(** Autoprint.  The positions at which the model prints a return value
+    ([call in direct and call.autoprint]: the call equals a directly requested
+    call -- the implicitly chosen default call included -- and its task is an
+    autoprint task) are exactly those the specification demands (autoprint task,
+    invocation identical to a directly requested one), dedupe on or off, under
+    the same guard as above: literal and effective equality agree on the
+    session. *)
+Theorem C04_autoprint_partial : forall sig eqk autop reqs dflt dd,
+  agree sig eqk (dfs (requested reqs dflt)) = true ->
+  print_ok entry_eqb sig autop reqs dflt dd (run_once []) (printed eqk autop reqs dflt dd) = true.
+Proof. exact printed_meets_spec. Qed.
+
 (** Non-vacuity: a diamond (leaf reached three times, once as post-task) with
     positional and keyword arguments, inside the guard, dedupe on: 7 calls
     expanded, 5 executed. *)
